@@ -134,7 +134,9 @@ func (rangeEngine) Gen(rng *rand.Rand, tier string, i int) any {
 		n = 4097
 	}
 	var start uint32
-	switch rng.Intn(4) {
+	switch rng.Intn(5) {
+	case 4:
+		start = uint32(rng.Intn(2)) // the bottom of the address space: 0.0.0.0 (or 0.0.0.1) is the first address
 	case 0:
 		start = uint32(0x100000000 - uint64(n)) // ends at 255.255.255.255
 	case 1:
